@@ -857,7 +857,18 @@ func c15xyz(c *fw.Ctx, idx int) {
 // segment is sqrt(1.25) away, so a scan that skips a segment at the seam of two
 // blocks of any size is seen at the length that puts a queried segment there.
 func c15EveryLength(c *fw.Ctx, idx int) {
-	n := idx + 2
+	c15Length(c, idx+2)
+	if idx < 40 {
+		// and 40 lengths far beyond the sweep: 10,000 .. 120,000 vertices
+		c15Length(c, 10001+idx*2777+idx%5)
+	}
+	c.Count("line_lengths_measured")
+	if idx%1000 == 0 {
+		c.Distinct(fmt.Sprintf("every-length/%d", idx))
+	}
+}
+
+func c15Length(c *fw.Ctx, n int) {
 	r := c.R
 	for _, layout := range []geom.Layout{geom.XY, geom.XYZ, geom.XYZM} {
 		stride := layout.Stride()
@@ -873,7 +884,17 @@ func c15EveryLength(c *fw.Ctx, idx int) {
 				flat[i*stride+k] = float64(i%7) - 3
 			}
 		}
-		for _, j := range []int{n - 2, 0, (n - 2) / 2, (n - 2) - (n-2)%3, r.Intn(n - 1)} {
+		js := []int{n - 2, 0, (n - 2) / 2, (n - 2) - (n-2)%3, r.Intn(n - 1)}
+		if n > 9000 {
+			// the segments that end one block of 256, 1000, 1024, 4096, 65536 vertices
+			// and start the next
+			for _, blk := range []int{256, 1000, 1024, 4096, 65536, 500, 2048} {
+				if blk < n-1 {
+					js = append(js, blk*r.Range(1, (n-2)/blk)-1)
+				}
+			}
+		}
+		for _, j := range js {
 			p := geom.Coord{float64(j) + 0.5, 6, math.NaN(), 2}[:stride]
 			if vert {
 				p = geom.Coord{-4, float64(j) + 0.5, math.NaN(), 2}[:stride]
@@ -889,10 +910,6 @@ func c15EveryLength(c *fw.Ctx, idx int) {
 				return
 			}
 		}
-	}
-	c.Count("line_lengths_measured")
-	if idx%1000 == 0 {
-		c.Distinct(fmt.Sprintf("every-length/%d", idx))
 	}
 }
 
